@@ -52,7 +52,11 @@ def run(ctx):
     ctx.check(ok, 'R14.1', 'tasks', nb.where(pushes[0][0]) if pushes else nb.where(0), nb.path, 'tasks must be (k, target) for k in 0..6 and target in {from, to}', found=found, detail=found or '')
 
     # candidate construction in the closure
-    arr = [l for l, n in c.names.items() if n == 'new_joints']
+    arr = []
+    for l in util.locals_of_type(c, lambda t: t == '[f64; 6]'):
+        ds = c.defs().get(l, [])
+        if l in c.names and len([d for d in ds if d[4]]) == 1 and len([d for d in ds if not d[4]]) >= 1:
+            arr.append(l)
     from .C16 import partial_writes
     ok = False
     found = None
